@@ -6,6 +6,7 @@ package main
 import (
 	"bytes"
 	"fmt"
+	"strings"
 
 	"github.com/willabides/rjson"
 )
@@ -21,44 +22,134 @@ var zeroObj = rjson.ObjectValueHandlerFunc(func(k, d []byte) (int, error) { retu
 
 var totalFns = []totalFn{
 	{"Valid", func(d []byte, b *rjson.Buffer) (bool, int, error) { rjson.Valid(d, b); return false, 0, nil }},
-	{"SkipValue", func(d []byte, b *rjson.Buffer) (bool, int, error) { p, err := rjson.SkipValue(d, b); return true, p, err }},
-	{"SkipValueFast", func(d []byte, b *rjson.Buffer) (bool, int, error) { p, err := rjson.SkipValueFast(d, b); return true, p, err }},
-	{"NextToken", func(d []byte, b *rjson.Buffer) (bool, int, error) { _, p, err := rjson.NextToken(d); return true, p, err }},
-	{"NextTokenType", func(d []byte, b *rjson.Buffer) (bool, int, error) { _, p, err := rjson.NextTokenType(d); return true, p, err }},
+	{"SkipValue", func(d []byte, b *rjson.Buffer) (bool, int, error) {
+		p, err := rjson.SkipValue(d, b)
+		return true, p, err
+	}},
+	{"SkipValueFast", func(d []byte, b *rjson.Buffer) (bool, int, error) {
+		p, err := rjson.SkipValueFast(d, b)
+		return true, p, err
+	}},
+	{"NextToken", func(d []byte, b *rjson.Buffer) (bool, int, error) {
+		_, p, err := rjson.NextToken(d)
+		return true, p, err
+	}},
+	{"NextTokenType", func(d []byte, b *rjson.Buffer) (bool, int, error) {
+		_, p, err := rjson.NextTokenType(d)
+		return true, p, err
+	}},
 	{"ReadNull", func(d []byte, b *rjson.Buffer) (bool, int, error) { p, err := rjson.ReadNull(d); return true, p, err }},
-	{"ReadBool", func(d []byte, b *rjson.Buffer) (bool, int, error) { _, p, err := rjson.ReadBool(d); return true, p, err }},
-	{"ReadInt64", func(d []byte, b *rjson.Buffer) (bool, int, error) { _, p, err := rjson.ReadInt64(d); return true, p, err }},
-	{"ReadInt32", func(d []byte, b *rjson.Buffer) (bool, int, error) { _, p, err := rjson.ReadInt32(d); return true, p, err }},
+	{"ReadBool", func(d []byte, b *rjson.Buffer) (bool, int, error) {
+		_, p, err := rjson.ReadBool(d)
+		return true, p, err
+	}},
+	{"ReadInt64", func(d []byte, b *rjson.Buffer) (bool, int, error) {
+		_, p, err := rjson.ReadInt64(d)
+		return true, p, err
+	}},
+	{"ReadInt32", func(d []byte, b *rjson.Buffer) (bool, int, error) {
+		_, p, err := rjson.ReadInt32(d)
+		return true, p, err
+	}},
 	{"ReadInt", func(d []byte, b *rjson.Buffer) (bool, int, error) { _, p, err := rjson.ReadInt(d); return true, p, err }},
-	{"ReadUint64", func(d []byte, b *rjson.Buffer) (bool, int, error) { _, p, err := rjson.ReadUint64(d); return true, p, err }},
-	{"ReadUint32", func(d []byte, b *rjson.Buffer) (bool, int, error) { _, p, err := rjson.ReadUint32(d); return true, p, err }},
-	{"ReadUint", func(d []byte, b *rjson.Buffer) (bool, int, error) { _, p, err := rjson.ReadUint(d); return true, p, err }},
-	{"ReadFloat64", func(d []byte, b *rjson.Buffer) (bool, int, error) { _, p, err := rjson.ReadFloat64(d); return true, p, err }},
-	{"ReadString", func(d []byte, b *rjson.Buffer) (bool, int, error) { _, p, err := rjson.ReadString(d, nil); return true, p, err }},
+	{"ReadUint64", func(d []byte, b *rjson.Buffer) (bool, int, error) {
+		_, p, err := rjson.ReadUint64(d)
+		return true, p, err
+	}},
+	{"ReadUint32", func(d []byte, b *rjson.Buffer) (bool, int, error) {
+		_, p, err := rjson.ReadUint32(d)
+		return true, p, err
+	}},
+	{"ReadUint", func(d []byte, b *rjson.Buffer) (bool, int, error) {
+		_, p, err := rjson.ReadUint(d)
+		return true, p, err
+	}},
+	{"ReadFloat64", func(d []byte, b *rjson.Buffer) (bool, int, error) {
+		_, p, err := rjson.ReadFloat64(d)
+		return true, p, err
+	}},
+	{"ReadString", func(d []byte, b *rjson.Buffer) (bool, int, error) {
+		_, p, err := rjson.ReadString(d, nil)
+		return true, p, err
+	}},
 	{"ReadStringBuf", func(d []byte, b *rjson.Buffer) (bool, int, error) {
 		sb := make([]byte, 3, 8)
 		_, p, err := rjson.ReadString(d, &sb)
 		return true, p, err
 	}},
-	{"ReadStringBytes", func(d []byte, b *rjson.Buffer) (bool, int, error) { _, p, err := rjson.ReadStringBytes(d, nil); return true, p, err }},
+	{"ReadStringBytes", func(d []byte, b *rjson.Buffer) (bool, int, error) {
+		_, p, err := rjson.ReadStringBytes(d, nil)
+		return true, p, err
+	}},
 	{"UnescapeStringContent", func(d []byte, b *rjson.Buffer) (bool, int, error) {
 		_, p, err := rjson.UnescapeStringContent(d, nil)
 		return true, p, err
 	}},
-	{"DecodeBool", func(d []byte, b *rjson.Buffer) (bool, int, error) { var v bool; p, err := rjson.DecodeBool(d, &v); return true, p, err }},
-	{"DecodeFloat64", func(d []byte, b *rjson.Buffer) (bool, int, error) { var v float64; p, err := rjson.DecodeFloat64(d, &v); return true, p, err }},
-	{"DecodeInt64", func(d []byte, b *rjson.Buffer) (bool, int, error) { var v int64; p, err := rjson.DecodeInt64(d, &v); return true, p, err }},
-	{"DecodeInt32", func(d []byte, b *rjson.Buffer) (bool, int, error) { var v int32; p, err := rjson.DecodeInt32(d, &v); return true, p, err }},
-	{"DecodeInt", func(d []byte, b *rjson.Buffer) (bool, int, error) { var v int; p, err := rjson.DecodeInt(d, &v); return true, p, err }},
-	{"DecodeUint64", func(d []byte, b *rjson.Buffer) (bool, int, error) { var v uint64; p, err := rjson.DecodeUint64(d, &v); return true, p, err }},
-	{"DecodeUint32", func(d []byte, b *rjson.Buffer) (bool, int, error) { var v uint32; p, err := rjson.DecodeUint32(d, &v); return true, p, err }},
-	{"DecodeUint", func(d []byte, b *rjson.Buffer) (bool, int, error) { var v uint; p, err := rjson.DecodeUint(d, &v); return true, p, err }},
-	{"DecodeString", func(d []byte, b *rjson.Buffer) (bool, int, error) { var v string; p, err := rjson.DecodeString(d, &v, nil); return true, p, err }},
-	{"ReadValue", func(d []byte, b *rjson.Buffer) (bool, int, error) { _, p, err := rjson.ReadValue(d); return true, p, err }},
-	{"ReadObject", func(d []byte, b *rjson.Buffer) (bool, int, error) { _, p, err := rjson.ReadObject(d); return true, p, err }},
-	{"ReadArray", func(d []byte, b *rjson.Buffer) (bool, int, error) { _, p, err := rjson.ReadArray(d); return true, p, err }},
-	{"HandleArrayValues0", func(d []byte, b *rjson.Buffer) (bool, int, error) { p, err := rjson.HandleArrayValues(d, zeroArr, b); return true, p, err }},
-	{"HandleObjectValues0", func(d []byte, b *rjson.Buffer) (bool, int, error) { p, err := rjson.HandleObjectValues(d, zeroObj, b); return true, p, err }},
+	{"DecodeBool", func(d []byte, b *rjson.Buffer) (bool, int, error) {
+		var v bool
+		p, err := rjson.DecodeBool(d, &v)
+		return true, p, err
+	}},
+	{"DecodeFloat64", func(d []byte, b *rjson.Buffer) (bool, int, error) {
+		var v float64
+		p, err := rjson.DecodeFloat64(d, &v)
+		return true, p, err
+	}},
+	{"DecodeInt64", func(d []byte, b *rjson.Buffer) (bool, int, error) {
+		var v int64
+		p, err := rjson.DecodeInt64(d, &v)
+		return true, p, err
+	}},
+	{"DecodeInt32", func(d []byte, b *rjson.Buffer) (bool, int, error) {
+		var v int32
+		p, err := rjson.DecodeInt32(d, &v)
+		return true, p, err
+	}},
+	{"DecodeInt", func(d []byte, b *rjson.Buffer) (bool, int, error) {
+		var v int
+		p, err := rjson.DecodeInt(d, &v)
+		return true, p, err
+	}},
+	{"DecodeUint64", func(d []byte, b *rjson.Buffer) (bool, int, error) {
+		var v uint64
+		p, err := rjson.DecodeUint64(d, &v)
+		return true, p, err
+	}},
+	{"DecodeUint32", func(d []byte, b *rjson.Buffer) (bool, int, error) {
+		var v uint32
+		p, err := rjson.DecodeUint32(d, &v)
+		return true, p, err
+	}},
+	{"DecodeUint", func(d []byte, b *rjson.Buffer) (bool, int, error) {
+		var v uint
+		p, err := rjson.DecodeUint(d, &v)
+		return true, p, err
+	}},
+	{"DecodeString", func(d []byte, b *rjson.Buffer) (bool, int, error) {
+		var v string
+		p, err := rjson.DecodeString(d, &v, nil)
+		return true, p, err
+	}},
+	{"ReadValue", func(d []byte, b *rjson.Buffer) (bool, int, error) {
+		_, p, err := rjson.ReadValue(d)
+		return true, p, err
+	}},
+	{"ReadObject", func(d []byte, b *rjson.Buffer) (bool, int, error) {
+		_, p, err := rjson.ReadObject(d)
+		return true, p, err
+	}},
+	{"ReadArray", func(d []byte, b *rjson.Buffer) (bool, int, error) {
+		_, p, err := rjson.ReadArray(d)
+		return true, p, err
+	}},
+	{"HandleArrayValues0", func(d []byte, b *rjson.Buffer) (bool, int, error) {
+		p, err := rjson.HandleArrayValues(d, zeroArr, b)
+		return true, p, err
+	}},
+	{"HandleObjectValues0", func(d []byte, b *rjson.Buffer) (bool, int, error) {
+		p, err := rjson.HandleObjectValues(d, zeroObj, b)
+		return true, p, err
+	}},
 	{"StdLibCompatibleString", func(d []byte, b *rjson.Buffer) (bool, int, error) {
 		if len(d) <= 1<<16 {
 			rjson.StdLibCompatibleString(string(d))
@@ -159,6 +250,17 @@ func genTotal(c *genCtx) error {
 			segs := []seg{{[]byte(wrap[0]), 1}, {[]byte(u), n}, {[]byte(wrap[1]), 1}}
 			runTotal(c.sw, &j, expandSegs(segs), segs, c.st)
 		}
+	}
+	// numbers: every decimal exponent around the conversion tables' range, every digit count
+	for e := -420; e <= 420; e++ {
+		for _, m := range []string{"1", "-1.5", "9", "123456789012345678", "12345678901234567890123", "0.000000000000000000001"} {
+			runTotal(c.sw, &j, []byte(fmt.Sprintf("%se%d", m, e)), nil, c.st)
+		}
+	}
+	for k := 0; k <= 420; k++ {
+		runTotal(c.sw, &j, []byte("1"+strings.Repeat("0", k)), nil, c.st)
+		runTotal(c.sw, &j, []byte("0."+strings.Repeat("0", k)+"1"), nil, c.st)
+		runTotal(c.sw, &j, []byte("["+strings.Repeat("9", k+1)+"]"), nil, c.st)
 	}
 	// small hostile inputs: every 1- and 2-byte input over an alphabet of interesting bytes
 	alpha := []byte("[]{},:\"\\ \n0123456789-+.eEtfnulrsa/\x00\x1f\x7f\x80\xff")
